@@ -34,12 +34,12 @@ def run(ctx):
     def c(v):
         return np.array([complex(*z) for z in v])
 
-    gvs = [dict(sps=16, R=1e9), dict(sps=8, R=2.5e9), dict(fs=40e9, R=10e9), dict(sps=4, fs=10e9)]
+    gvs = [dict(sps=16, R=1e9), dict(sps=8, R=2.5e9), dict(fs=40e9, R=10e9), dict(sps=4, fs=10e9), dict(R=10e9, fs=25e9), dict(fs=23e9)]   # incl. fs/R not an integer
 
     def setgv(i):
         with warnings.catch_warnings():
             warnings.simplefilter("ignore")
-            gv.clean() if i % 5 == 4 else gv(**gvs[i % 4])
+            gv.clean() if i % 7 == 6 else gv(**gvs[i % 6])
         return gv.fs
 
     evs = parse_ev(r.out)
